@@ -12,6 +12,9 @@ CHECKS = {
  "C07": ("model_checking", "every interleaving (2 threads, state-cached exhaustive DFS under a cooperative scheduler at file-system-call and lock-operation granularity) of each related call pair from 5 start states on the REAL code; each distinct terminal outcome judged by TLC (TraceLin): some permutation of the calls through the contract Apply must reproduce results and final state", "§5 C07"),
  "C08": ("model_checking", "deadlock detection (no runnable thread while a call is unfinished), lock lists empty at quiescence and follow-up calls on every involved identifier must complete, over every execution explored for C07 and C12; judged by TLC (TraceLin I_NoDeadlock / I_NothingLocked)", "§5 C08"),
  "C12": ("model_checking", "every interleaving of metadata call pairs on one pid (store/retrieve/delete(format)/delete(all)/delete_object) on the real code; outcomes judged linearizable against Apply by TLC (TraceLin)", "§5 C12"),
+ "C09": ("model_checking", "C09 clauses evaluated by TLC on (a) every distinct abstract store state seen between two file-system operations in every interleaving explored for C07/C12 (what a concurrent reader can see), (b) the directory left by process death before each file-system operation of each call, (c) the state after each injected fault", "§5 C09"),
+ "C10": ("fault_enumeration", "process death (fork + os._exit) before each intercepted file-system operation of each call x start state on the real code; post-crash abstraction, reopen with a fresh instance and recovery script; clauses C10_OthersIntact / C10_NoWrongBytes / C10_Unwedge judged by TLC (TraceFault)", "§5 C10"),
+ "C13": ("fault_enumeration", "one injected OSError at each mutating/opening file-system operation of each call x start state x {once, persistent-for-destination} on the real code; clauses C13_* judged by TLC (TraceFault) with the contract Apply as the meaning of 'whole effect'", "§5 C13"),
 }
 NOT_YET = {}
 
